@@ -319,14 +319,6 @@ def run(ck):
     from ..report import RuleView as _RV16
     from . import c11 as _c11
     _c11.run(_RV16(ck, {"C11.7": "C16.5"}))
-    ck.clause("C16.10", "the top-count seeds are chosen once over the correlations of all references (as C05.9): per-reference selections "
-                        "merged afterwards are not the top peaks")
-    from .c05 import seeds_over_all_references as _soar16
-    _soar16(ck, "C16.10")
-    ck.clause("C16.9", "the vectoriser's input is ascending: label positions pass a sort before they enter an OpticalMap (as C17.1) - the "
-                       "scanning loop skips every label behind its cursor and takes positions[-1] for the end of the vector")
-    from .c10 import id_filters as _idf16
-    _idf16(_RV16(ck, {"C17.1": "C16.9"}), "C17.3", "C17.1")
     scanning_loop(ck)
     from .c11 import window_arguments
     window_arguments(ck, "C16.2")
@@ -523,8 +515,19 @@ def run(ck):
     ck.clause("C16.8", "a peak keeps the score, height and position it is given: seeds are ranked by the score as computed (a rounded or "
                        "clamped score makes near-equal peaks tie, and ties fall back to enumeration order; as C12.7)")
     from .c12 import stored_unconverted as _su
-    _su(_RV16(ck, {"C12.7": "C16.8"}, only_files=("src/correlation/peak.py",)), "C12.7")
+    if ck.wants("C16.8"):
+        _su(_RV16(ck, {"C12.7": "C16.8"}, only_files=("src/correlation/peak.py",)), "C12.7")
     ck.ok("C16.8", "Peak:stores", "src/correlation/peak.py", "constructor stores inspected", "")
     blur_keeps_length(ck)
     sequence_is_blurred_vectorisation(ck)
+    ck.clause("C16.10", "the top-count seeds are chosen once over the correlations of all references (as C05.9): per-reference selections "
+                        "merged afterwards are not the top peaks")
+    from .c05 import seeds_over_all_references as _soar16
+    if ck.wants("C16.10"):
+        _soar16(ck, "C16.10")
+    ck.clause("C16.9", "the vectoriser's input is ascending: label positions pass a sort before they enter an OpticalMap (as C17.1) - the "
+                       "scanning loop skips every label behind its cursor and takes positions[-1] for the end of the vector")
+    from .c10 import id_filters as _idf16
+    if ck.wants("C16.9"):
+        _idf16(_RV16(ck, {"C17.1": "C16.9"}), "C17.3", "C17.1")
 
